@@ -32,34 +32,42 @@ class SymRandom(object):
 
 
 # ---------------------------------------------------------------- math on symbolic reals (3.8)
-def sym_ceil(x):
+def _memo_int(kind, xe, mk):
+  """one fresh integer per (kind, term) per path: the code and the oracle see the same value"""
   E = _E()
+  memo = E.__dict__.setdefault('_int_memo', {})
+  if E.__dict__.get('_int_memo_path') is not E.trace:
+    memo.clear(); E._int_memo_path = E.trace
+  key = (kind, xe.get_id())
+  if key in memo: return memo[key][0]
+  k = z3.Int(E.fresh_name(kind + '!'))
+  E.add(*mk(z3.ToReal(k), xe))
+  memo[key] = (k, xe)       # keep xe alive so the AST id is not recycled
+  return k
+
+
+def _const_val(xe):
+  if z3.is_rational_value(xe):
+    return Fraction(xe.numerator_as_long(), xe.denominator_as_long())
+  return None
+
+
+def sym_ceil(x):
   if isinstance(x, SymReal):
-    if isinstance(x, SymRealInt): return x
     xe = z3.simplify(x.e)
-    if z3.is_rational_value(xe):
-      return SymRealInt(z3.IntVal(_math.ceil(Fraction(xe.numerator_as_long(), xe.denominator_as_long()))))
-    memo = E.__dict__.setdefault('_ceil_memo', {})
-    if E.__dict__.get('_ceil_memo_path') is not E.trace:
-      memo.clear(); E._ceil_memo_path = E.trace
-    key = xe.get_id()
-    if key in memo: return SymRealInt(memo[key][0])
-    k = z3.Int(E.fresh_name('ceil!'))
-    E.add(z3.ToReal(k) >= xe, z3.ToReal(k) - 1 < xe)
-    memo[key] = (k, xe)       # keep xe alive so the AST id is not recycled
-    return SymRealInt(k)
+    c = _const_val(xe)
+    if c is not None: return _math.ceil(c)
+    return SymInt(_memo_int('ceil', xe, lambda kr, xe: (kr >= xe, kr - 1 < xe)))
   if isinstance(x, SymInt): return x
-  if isinstance(x, Fraction): return _math.ceil(x)
   return _math.ceil(x)
 
 
 def sym_floor(x):
-  E = _E()
   if isinstance(x, SymReal):
-    if isinstance(x, SymRealInt): return x
-    k = z3.Int(E.fresh_name('floor!'))
-    E.add(z3.ToReal(k) <= x.e, z3.ToReal(k) + 1 > x.e)
-    return SymRealInt(k)
+    xe = z3.simplify(x.e)
+    c = _const_val(xe)
+    if c is not None: return _math.floor(c)
+    return SymInt(_memo_int('floor', xe, lambda kr, xe: (kr <= xe, kr + 1 > xe)))
   if isinstance(x, SymInt): return x
   return _math.floor(x)
 
@@ -73,14 +81,13 @@ def sym_float(x):
 
 def sym_int(x):
   """int(): truncation toward zero"""
-  if isinstance(x, SymRealInt): return x
   if isinstance(x, SymInt): return x
   if isinstance(x, SymReal):
-    E = _E()
-    k = z3.Int(E.fresh_name('trunc!'))
-    kr = z3.ToReal(k)
-    E.add(z3.If(x.e >= 0, z3.And(kr <= x.e, kr + 1 > x.e), z3.And(kr >= x.e, kr - 1 < x.e)))
-    return SymRealInt(k)
+    xe = z3.simplify(x.e)
+    c = _const_val(xe)
+    if c is not None: return int(c)
+    return SymInt(_memo_int('trunc', xe, lambda kr, xe: (
+      z3.If(xe >= 0, z3.And(kr <= xe, kr + 1 > xe), z3.And(kr >= xe, kr - 1 < xe)),)))
   if isinstance(x, Exact): return int(Fraction(x))
   return int(x)
 
